@@ -1,7 +1,7 @@
 """C14 distinct repeating-group definitions never share metadata: theorems Props.C14 about the FIXED f8c (probe on a hash hit: every group of
 every message generated from its own definition for every closed insertion sequence, boundedness of the probe, key stability, facts about the key
 group_hash, regression theorems for the former finding witnesses) + stream `f8c`: schemas reusing one count field with identical / different /
-structurally close / equal-key definitions (order-only, flag-only, component-only, manufactured key collisions incl. a definition that is a prefix of the other), compiled by the fresh f8c and g++,
+structurally close / equal-key definitions (order-only, flag-only, component-only, manufactured key collisions incl. a definition that is a prefix of the other; identical outer definitions whose innermost nested groups, two or three levels down, differ only by order / flag / key collision), compiled by the fresh f8c and g++,
 every message's group read back and round-tripped; every family must PASS the specification oracle."""
 import vlib, gen_facts, f8cfacts, f8ctv
 
@@ -17,7 +17,7 @@ def gen(rng, thorough):
     n_known = 4 if thorough else 0
     # all valid families in one schema (twice per quick run), plus each family on its own in thorough
     for _ in range(8 if thorough else 2):
-        cases.append(dict(S=f8ctv.fam_reuse_multi(rng), valid=True, rt=[]))
+        cases.append(dict(S=f8ctv.fam_reuse_multi(rng, f8ctv.MULTI_ALL), valid=True, rt=[]))
     for fam in f8ctv.VALID_REUSE:
         for _ in range(n_valid):
             cases.append(dict(S=fam(rng), valid=True, rt=[]))
